@@ -178,7 +178,8 @@ def code_breaks_roundtrip(kind, is_return, typ, code, edd):
     if kind in ("function", "method"):
         if is_return:
             return True
-        return (edd and (dotted or not quoted)) or (not edd and not bracket)
+        # (a code default under a type without brackets makes `_infer_default` drop the type, default text or not)
+        return (edd and (dotted or not quoted)) or not bracket
     return edd and (dotted or not quoted)
 
 
